@@ -28,7 +28,7 @@ TYPE_SETS = {
 }
 
 
-def make_schema(assign, reason_shift=0, tset="A"):
+def make_schema(assign, reason_shift=0, tset="A", extend=False):
     """assign: tuple of 4 in {0 current, 1 deprecated, 2 deprecated with reason}."""
     deps = []
     r = reason_shift
@@ -44,13 +44,14 @@ def make_schema(assign, reason_shift=0, tset="A"):
     gf = [gql.FieldDef("g%d" % i, TYPE_SETS[tset][i], dep=deps[i]) for i in range(4)]
     # the implementor repeats the interface's fields, not deprecated there
     tg = [gql.FieldDef("g%d" % i, TYPE_SETS[tset][i]) for i in range(4)]
+    # extend = True: the f-fields of T are declared in an `extend type T { .. }` block of the SDL
     schema = gql.Schema([
         gql.obj("Sub", [("x", "Int")]),   # field 2 is object-typed: a deprecated composite field has a sub-selection
         gql.enum("Kind", ["K1", "K2"]), gql.scalar("Date"), gql.union("Uni", ["Sub"]),
         gql.iface("IF", gf),
-        gql.obj("T", tf + tg + [gql.FieldDef("keep", "Int")], ["IF"]),
+        gql.obj("T", ([] if extend else tf) + tg + [gql.FieldDef("keep", "Int")], ["IF"]),
         gql.obj("Q", [("t", "T"), ("i", "IF")]),
-    ], {"query": "Q"})
+    ], {"query": "Q"}, extensions=([("T", tf, [])] if extend else []))
     return schema, deps
 
 
@@ -139,6 +140,11 @@ def run(tier):
             for style in ("direct", "fragment", "variant"):
                 for strat in ("warn", "deny"):
                     cases.append({"assign": assign, "fmt": fmt, "style": style, "strategy": strat, "shift": sum(assign) % 4, "tset": "B"})
+    # the same fields declared in an `extend type` block (SDL only)
+    for assign in itertools.product((0, 1, 2), repeat=4):
+        for style in ("direct", "fragment", "variant"):
+            for strat in ("warn", "deny", "allow"):
+                cases.append({"assign": assign, "fmt": "sdl_ext", "style": style, "strategy": strat, "shift": sum(assign) % 4})
     # every reason on every field position once more (full reason alphabet on one field)
     for pos in range(4):
         for ri in range(len(REASONS)):
@@ -148,15 +154,15 @@ def run(tier):
                 cases.append({"assign": tuple(a), "fmt": fmt, "style": "direct", "strategy": "warn", "shift": ri})
     reqs = []
     for c in cases:
-        schema, deps = make_schema(c["assign"], c["shift"], c.get("tset", "A"))
+        schema, deps = make_schema(c["assign"], c["shift"], c.get("tset", "A"), extend=c["fmt"] == "sdl_ext")
         c["deps"] = deps
         doc, holder, wires, path = make_doc(c["style"], c.get("tset", "A"))
         c["doc"], c["holder"], c["wires"], c["path"] = doc, holder, wires, path
-        text = schema.sdl() if c["fmt"] == "sdl" else schema.introspection()
+        text = schema.sdl() if c["fmt"] in ("sdl", "sdl_ext") else schema.introspection()
         opts = dict(DEFAULT_OPTS)
         if c["strategy"]:
             opts["deprecation"] = c["strategy"]
-        reqs.append(gen_request(text, gql.render_doc(doc), opts, ext="graphql" if c["fmt"] == "sdl" else "json", inspect=True))
+        reqs.append(gen_request(text, gql.render_doc(doc), opts, ext="json" if c["fmt"] == "json" else "graphql", inspect=True))
     # block-string reason (SDL only)
     block_sdl = ('schema { query: Q }\ntype Q { t: T }\ntype T { f0: String @deprecated(reason: """\n  block reason\n  second "line"\n  """) keep: Int }\n')
     reqs.append(gen_request(block_sdl, "query Op { t { f0 keep } }\n", dict(DEFAULT_OPTS, deprecation="warn"), inspect=True))
